@@ -108,18 +108,35 @@ func NewConn(s Script, clk *Clock) *Conn {
 	if clk == nil {
 		clk = &Clock{}
 	}
-	var inner error = ErrInjected
 	k := connCtr.Add(1)
 	noAddr := k%3 == 0 // every third connection does not know its addresses
-	if k%5 == 1 {
-		// a connection reset by the peer, as the kernel reports it: an I/O failure like any other
+	return &Conn{S: s, Clock: clk, NoAddr: noAddr, unblock: make(chan struct{}), injErr: flavour(s)}
+}
+
+// flavour picks the shape of the connection's injected I/O failure from the script itself, so that two runs of one
+// script (with and without hooks, say) meet the same failure: plain; "connection timed out" (a permanent error whose
+// Timeout() says true - not a poll deadline); connection reset by peer; an interrupted system call.
+func flavour(s Script) error {
+	h := uint32(2166136261)
+	mix := func(b byte) { h = (h ^ uint32(b)) * 16777619 }
+	for _, b := range s.Reply {
+		mix(b)
+	}
+	for _, st := range s.Steps {
+		mix(byte(st.N))
+		mix(byte(len(st.Err)))
+	}
+	mix(byte(len(s.Tail)))
+	var inner error = ErrInjected
+	switch (h >> 8) % 10 {
+	case 0, 1:
 		inner = connReset{}
-	} else if k%2 == 0 {
-		// every second connection's I/O failure is of the "connection timed out" kind: a permanent error whose
-		// Timeout() method says true (ETIMEDOUT after retransmissions gave up) - not a poll deadline
+	case 2, 3:
+		inner = interrupted{}
+	case 4, 5, 6:
 		inner = permanentTimeout{}
 	}
-	return &Conn{S: s, Clock: clk, NoAddr: noAddr, unblock: make(chan struct{}), injErr: &net.OpError{Op: "read", Net: "verif", Err: inner}}
+	return &net.OpError{Op: "read", Net: "verif", Err: inner}
 }
 
 func kindErr(k string) error {
@@ -184,6 +201,14 @@ type connReset struct{}
 func (connReset) Error() string { return ErrInjected.Error() } // same text, see permanentTimeout
 func (connReset) Is(target error) bool {
 	return target == ErrInjected || target == error(syscall.ECONNRESET)
+}
+
+// interrupted is ErrInjected in the shape of an interrupted system call: errors.Is(err, syscall.EINTR) holds.
+type interrupted struct{}
+
+func (interrupted) Error() string { return ErrInjected.Error() } // same text, see permanentTimeout
+func (interrupted) Is(target error) bool {
+	return target == ErrInjected || target == error(syscall.EINTR)
 }
 
 // Read follows the script.
@@ -310,6 +335,7 @@ func (c *Conn) Rearm(s Script, cancel func()) {
 	c.mu.Lock()
 	defer c.mu.Unlock()
 	c.S = s
+	c.injErr = flavour(s)
 	c.Cancel = cancel
 	c.pos, c.step, c.reads, c.idle = 0, 0, 0, 0
 	c.Log = nil
